@@ -12,7 +12,7 @@ from vt.interp import H5Group
 from vt.verify import Clause
 from vt import verify as V
 from contracts import gmm as G
-from props.common import new_interp, collapse, guard
+from props.common import new_interp, collapse, guard, bounded
 
 FUNCTIONS = ["gmm.GMMMachine.save", "gmm.GMMMachine.from_hdf5", "gmm.GMMMachine.load", "gmm.GMMStats.save", "gmm.GMMStats.from_hdf5",
              "gmm.GMMStats.load", "gmm.GMMStats.resize / init_fields"]
@@ -190,8 +190,11 @@ def train_same(ctx):
 
 GROUPS = [guard(machine_rt), guard(machine_none_limit), guard(stats_rt), guard(train_same)]
 SHARED = []
-REPLAY = [("C18", "h5_repro.py", "machine", {}), ("C18.gmm", "h5_repro.py", "machine", {}), ("C18.stats", "h5_repro.py", "stats", {})]
+BOUNDED = [bounded("h5_repro.py", "legacy", "C18.legacy.native",
+                   "legacy-format machine files with 2, 12 and 25 Gaussians (written by hand in the legacy layout with h5py) load, through from_hdf5 and "
+                   "load, to bit-identical weights, means, variances and scores as the current-format file of the same machine (native h5py)")]
+REPLAY = [("C18.legacy", "h5_repro.py", "legacy", {}), ("C18", "h5_repro.py", "machine", {}), ("C18.gmm", "h5_repro.py", "machine", {}), ("C18.stats", "h5_repro.py", "stats", {})]
 TRUSTED = ["h5py map model (DESIGN §3): values read back bit-identically; str datasets come back as bytes; attrs round-trip str; Dataset == 's' is False; None cannot be stored",
-           "legacy-format files: the legacy writer is not in the repository; the legacy readers are exercised only by the pinned tests (not decided here)"]
+           "legacy-format files: the legacy writer is not in the repository; the legacy MACHINE reader is covered by the bounded native check C18.legacy.native (files written by hand in the legacy layout), the legacy STATISTICS reader only by the pinned tests"]
 ASSUMPTIONS = ["machine satisfies Inv (variances >= floors)"]
 XCHECK = ['gmm']
